@@ -117,6 +117,10 @@ type Channel struct {
 	Q              *util.Queue
 	Errs           chan error
 	readLoopExited atomic.Bool
+	// transportErr holds the error of the most recent transport read for as long as the transport
+	// keeps failing, so that every read activity sees it, not only the one that happens to pick it
+	// up from Errs.
+	transportErr atomic.Pointer[error]
 
 	ChannelLog io.Writer
 }
